@@ -227,9 +227,18 @@ def new_version(data, allow_custom=None, **kwargs):
 
             sco_locked_props = cls._id_contributing_properties
 
+    # When versioning an object, changes can also arrive through the
+    # constructors' "custom_properties" argument.
+    custom_props = kwargs.get("custom_properties")
+    if not (
+        isinstance(data, stix2.base._STIXBase)
+        and isinstance(custom_props, Mapping)
+    ):
+        custom_props = {}
+
     unchangable_properties = set()
     for prop in itertools.chain(STIX_UNMOD_PROPERTIES, sco_locked_props):
-        if prop in kwargs:
+        if prop in kwargs or prop in custom_props:
             unchangable_properties.add(prop)
     if unchangable_properties:
         raise UnmodifiablePropertyError(unchangable_properties)
